@@ -432,11 +432,14 @@ func expectedLogs(evs []nevent, caller []byte) (out []elog) {
 // ------------------------------------------------------------------ native execution (chain B's modules)
 
 type scriptEntry struct {
-	msg  sdk.Msg
-	ok   bool
-	evs  []nevent
-	bal  *big.Int
-	coqM string
+	msg sdk.Msg
+	ok  bool
+	// the native message server panicked (e.g. "Int overflow" in the share arithmetic for an absurd amount): natively
+	// the whole transaction dies, and so does the Ethereum transaction around a precompile call
+	panicked bool
+	evs      []nevent
+	bal      *big.Int
+	coqM     string
 }
 
 func (tw *twin) coqMsg(c *Chain, m sdk.Msg) string {
@@ -473,6 +476,7 @@ func (tw *twin) execNative(c *Chain, ctx sdk.Context, m sdk.Msg, caller sdk.AccA
 	})
 	en := scriptEntry{msg: m, coqM: tw.coqMsg(c, m)}
 	if p != nil || err != nil {
+		en.panicked = p != nil
 		return en
 	}
 	write()
@@ -1032,6 +1036,10 @@ func TestDriverStaking(t *testing.T) {
 		tw := newTwin(t)
 		for step := 0; step < steps; step++ {
 			k := r.Intn(100)
+			// a duplicate validator of the suite (same consensus key, see RepairConsAddrIndex) that was delegated to and
+			// then emptied is removed together with the shared consensus-address index entry, after which no block
+			// proposer can be resolved: point the index back (both chains alike)
+			tw.both(func(c *Chain) { c.RepairConsAddrIndex() })
 			switch {
 			case k < 12:
 				tw.accrue()
@@ -1169,8 +1177,18 @@ func (tw *twin) cpcStep(r *Rng, side *Sidecar, cases *CasesFile, idx *int, seq, 
 		preA[a.GetEthAddress().Hex()] = tw.acctAt(tw.A, qA, a.GetCosmosAddress(), tw.A.Time)
 	}
 	res := tw.A.C11SendEth(sender, to, op.payload, txGas)
-	require.Equal(t, uint32(0), res.Code, "transaction rejected before execution: %s", res.Log)
-	obsOK := res.Status == 1
+	if res.Code != 0 {
+		// the whole transaction died (no receipt): legitimate only where the native message server panics as well
+		nativePanics := false
+		for _, en := range script {
+			nativePanics = nativePanics || en.panicked
+		}
+		side.Count("precompile-call:transaction-panicked")
+		if !nativePanics {
+			side.Hit("C11/staking/transaction-died-where-native-submission-does-not/"+op.method, fmt.Sprintf("the Ethereum transaction was rejected with code %d although no native message of the submission panics", res.Code), nil)
+		}
+	}
+	obsOK := res.Code == 0 && res.Status == 1
 	obsRet := false
 	if obsOK && len(res.Ret) == 32 {
 		obsRet = res.Ret[31] == 1
